@@ -4,6 +4,7 @@ package main
 
 import (
 	"html"
+	"strconv"
 	"strings"
 
 	"verif/kit"
@@ -48,10 +49,62 @@ func spaces(tier string) []kit.Space {
 		}
 	}
 	desc := func(i uint64) any { return en.At(i) }
+	// retained results: every ordered triple of calls over inputs of sizes around
+	// the sizes at which an implementation could change strategy (0 … 5000 bytes);
+	// every result is kept and must still be what the reference gives after the
+	// later calls have been made (a result must not alias a reused buffer).
+	var inputs []string
+	for _, l := range []int{0, 1, 7, 100, 1023, 1024, 1025, 2048, 5000} {
+		for _, pat := range []string{"<p class=\"x\">Tom & 'Jerry'</p>", "plain text ", "&&&&"} {
+			var b strings.Builder
+			for b.Len() < l {
+				b.WriteString(pat)
+			}
+			inputs = append(inputs, b.String()[:l])
+		}
+	}
+	nin := uint64(len(inputs))
+	retained := func(f func(string) string, name string) func(i uint64) kit.Outcome {
+		return func(i uint64) kit.Outcome {
+			idx := []uint64{i % nin, i / nin % nin, i / nin / nin}
+			var got, snap []string
+			for _, k := range idx {
+				r := f(inputs[k])
+				got = append(got, r)
+				snap = append(snap, strings.Clone(r))
+			}
+			o := kit.Outcome{OK: true, Nontrivial: true, Class: "retained", Ops: 3}
+			for k := range idx {
+				want := ref.Replace(inputs[idx[k]])
+				if snap[k] != want {
+					return kit.Outcome{Key: name + "|differs-from-reference-replacer", Nontrivial: true, Detail: "call " + itoa(k) + " of the sequence: input of " + itoa(len(inputs[idx[k]])) + " bytes"}
+				}
+				if got[k] != want {
+					return kit.Outcome{Key: name + "|result-changes-after-later-calls", Nontrivial: true,
+						Detail: "sequence of 3 calls with inputs of " + itoa(len(inputs[idx[0]])) + ", " + itoa(len(inputs[idx[1]])) + ", " + itoa(len(inputs[idx[2]])) + " bytes: the result of call " + itoa(k) + " was right when returned and is different after the later calls:\nnow  " + strconvQ(trunc(got[k])) + "\nwant " + strconvQ(trunc(want))}
+				}
+			}
+			return o
+		}
+	}
+	descR := func(i uint64) any {
+		return map[string]any{"input_lengths": []int{len(inputs[i%nin]), len(inputs[i/nin%nin]), len(inputs[i/nin/nin])}, "inputs": []uint64{i % nin, i / nin % nin, i / nin / nin}}
+	}
 	return []kit.Space{
+		{Name: "scriggo.HTMLEscape.retained", Size: nin * nin * nin, Eval: retained(func(s string) string { return string(scriggo.HTMLEscape(s)) }, "HTMLEscape"), Describe: descR},
+		{Name: "builtin.HtmlEscape.retained", Size: nin * nin * nin, Eval: retained(func(s string) string { return string(builtin.HtmlEscape(s)) }, "HtmlEscape"), Describe: descR},
 		{Name: "scriggo.HTMLEscape", Size: en.Size(), Eval: eval(func(s string) string { return string(scriggo.HTMLEscape(s)) }, "HTMLEscape"), Describe: desc},
 		{Name: "builtin.HtmlEscape", Size: en.Size(), Eval: eval(func(s string) string { return string(builtin.HtmlEscape(s)) }, "HtmlEscape"), Describe: desc},
 	}
+}
+
+func itoa(n int) string { return strconv.Itoa(n) }
+
+func trunc(s string) string {
+	if len(s) > 120 {
+		return s[:120] + "…"
+	}
+	return s
 }
 
 func strconvQ(s string) string { return "\"" + strings.ReplaceAll(s, "\xc3", "\\xc3") + "\"" }
@@ -60,7 +113,7 @@ func main() {
 	kit.Main(&kit.Check{
 		ID:    "C24",
 		Level: "model_checking",
-		Rule:  "every string over {< > & \" ' a 0xC3} up to the tier's length, for both exported entry points; a case is non-trivial when the input contains at least one of the five special characters; indices enumerate distinct strings (mixed radix is injective)",
+		Rule:  "every string over {< > & \" ' a 0xC3} up to the tier's length, for both exported entry points; a case is non-trivial when the input contains at least one of the five special characters; indices enumerate distinct strings (mixed radix is injective); plus every ordered triple of calls over 27 inputs of 0…5000 bytes whose results are all kept and compared again after the later calls",
 		Assumptions: []string{
 			"strings longer than the bound and bytes outside the 7-symbol alphabet are not explored",
 			"reference = strings.NewReplacer over the five entities and html.UnescapeString",
